@@ -146,7 +146,8 @@ def run(ctx, chk):
     # instruction execution - by handle_interrupt only (a dispatch from anywhere else would bypass the IME test of C07.2)
     ipst = prog.field_stores('cpu::Registers', 'ip')
     outside = sorted(set(f for f, bb, line, rv, kind in ipst
-                         if not f.startswith('interpreter::') and not f.startswith('cpu::Registers::')))
+                         if not f.startswith('interpreter::') and not f.startswith('cpu::Registers::') and
+                         not f.startswith('<cpu::Registers as ')))       # trait constructors (a derived Default)
     vec_fns = outside
     if outside and set(outside) <= families(prog, [CORE + 'handle_interrupt']):
         chk.ok('C08.3', 'vector-writers', sample={'writers of PC outside instruction execution': outside})
